@@ -284,6 +284,22 @@ struct P<'p> {
     script: Option<&'p [End]>,
 }
 
+/// a constructor that panics (for a non-zero size) is reported as a case of its own:
+/// history "F" with implementation result PANIC
+fn ctor_panicked(out: &mut Out, p: &P, fam: &str) {
+    let args = format!("{} {} {} F", p.elem, p.len, p.size);
+    out.line(fam, &args, "PANIC", "-", "ctor-panic");
+}
+
+macro_rules! drive_c {
+    ($out:expr, $p:expr, $fam:expr, $wr:expr, $ctor:expr, $($rest:expr),+ $(,)?) => {
+        match catch_unwind(AssertUnwindSafe(|| $ctor)) {
+            Ok(it) => drive($out, $p, $fam, $wr, it, $($rest),+),
+            Err(_) => ctor_panicked($out, $p, $fam),
+        }
+    };
+}
+
 #[allow(clippy::too_many_arguments)]
 fn drive<I: DeIt, S: DeIt<Item = I::Item>>(
     out: &mut Out,
@@ -330,15 +346,15 @@ fn k_iter<T: Elem>(out: &mut Out, p: &P, whole: &[T], variants: bool) {
     let std_r = || StdW { main: whole.iter().rev(), shadow: whole.iter(), flip: true };
     let ir = |i: &ks::Iter<T>| view_of(whole, i.as_slice());
     let irr = |i: &ks::IterRev<T>| view_of(whole, i.as_slice());
-    drive(out, p, "c08.iter", true, ks::iter(whole), std_f(), &show, &ir, &sh);
-    drive(out, p, "c08.iter_rev", true, ks::iter(whole).rev(), std_r(), &show, &irr, &shr);
+    drive_c!(out, p, "c08.iter", true, ks::iter(whole), std_f(), &show, &ir, &sh);
+    drive_c!(out, p, "c08.iter_rev", true, ks::iter(whole).rev(), std_r(), &show, &irr, &shr);
     if variants {
-        drive(out, p, "c08.iter", true, ks::iter(whole).rev().rev(), std_f(), &show, &ir, &sh);
-        drive(out, p, "c08.iter_rev", true, ks::iter(whole).copy().rev().copy(), std_r(), &show, &irr, &shr);
+        drive_c!(out, p, "c08.iter", true, ks::iter(whole).rev().rev(), std_f(), &show, &ir, &sh);
+        drive_c!(out, p, "c08.iter_rev", true, ks::iter(whole).copy().rev().copy(), std_r(), &show, &irr, &shr);
         // the IntoIterWrapper::const_into_iter constructors (&[T] and &&[T])
-        drive(out, p, "c08.iter", true, konst::iter::into_iter!(whole), std_f(), &show, &ir, &sh);
+        drive_c!(out, p, "c08.iter", true, konst::iter::into_iter!(whole), std_f(), &show, &ir, &sh);
         let rr: &&[T] = &whole;
-        drive(out, p, "c08.iter", true, konst::iter::into_iter!(rr), std_f(), &show, &ir, &sh);
+        drive_c!(out, p, "c08.iter", true, konst::iter::into_iter!(rr), std_f(), &show, &ir, &sh);
     }
 }
 
@@ -364,10 +380,10 @@ fn k_copied<T: Elem>(out: &mut Out, p: &P, whole: &[T], variants: bool) {
     let std_r = || StdW { main: whole.iter().copied().rev(), shadow: whole.iter(), flip: true };
     let ir = |i: &ks::IterCopied<T>| view_of(whole, i.as_slice());
     let irr = |i: &ks::IterCopiedRev<T>| view_of(whole, i.as_slice());
-    drive(out, p, "c08.iter_copied", true, ks::iter_copied(whole), std_f(), &show, &ir, &sh);
-    drive(out, p, "c08.iter_copied_rev", true, ks::iter_copied(whole).rev(), std_r(), &show, &irr, &shr);
+    drive_c!(out, p, "c08.iter_copied", true, ks::iter_copied(whole), std_f(), &show, &ir, &sh);
+    drive_c!(out, p, "c08.iter_copied_rev", true, ks::iter_copied(whole).rev(), std_r(), &show, &irr, &shr);
     if variants {
-        drive(out, p, "c08.iter_copied", true, ks::iter_copied(whole).rev().rev(), std_f(), &show, &ir, &sh);
+        drive_c!(out, p, "c08.iter_copied", true, ks::iter_copied(whole).rev().rev(), std_f(), &show, &ir, &sh);
     }
 }
 
@@ -381,10 +397,10 @@ fn k_windows<T: Elem>(out: &mut Out, p: &P, whole: &[T], variants: bool) {
     let show = |x: &[T]| view_of(whole, x);
     let std_f = || StdW { main: whole.windows(n), shadow: no_shadow(), flip: false };
     let std_r = || StdW { main: whole.windows(n).rev(), shadow: no_shadow(), flip: true };
-    drive(out, p, "c08.windows", false, ks::windows(whole, n), std_f(), &show, &|_| String::new(), &|_| String::new());
-    drive(out, p, "c08.windows_rev", false, ks::windows(whole, n).rev(), std_r(), &show, &|_| String::new(), &|_| String::new());
+    drive_c!(out, p, "c08.windows", false, ks::windows(whole, n), std_f(), &show, &|_| String::new(), &|_| String::new());
+    drive_c!(out, p, "c08.windows_rev", false, ks::windows(whole, n).rev(), std_r(), &show, &|_| String::new(), &|_| String::new());
     if variants {
-        drive(out, p, "c08.windows", false, ks::windows(whole, n).rev().rev(), std_f(), &show, &|_| String::new(), &|_| String::new());
+        drive_c!(out, p, "c08.windows", false, ks::windows(whole, n).rev().rev(), std_f(), &show, &|_| String::new(), &|_| String::new());
     }
 }
 
@@ -397,13 +413,13 @@ fn k_chunks<T: Elem>(out: &mut Out, p: &P, whole: &[T], variants: bool) {
     }
     let show = |x: &[T]| view_of(whole, x);
     let e = |_: &_| String::new();
-    drive(out, p, "c08.chunks", false, ks::chunks(whole, n), StdW { main: whole.chunks(n), shadow: no_shadow(), flip: false }, &show, &|_| String::new(), &e);
-    drive(out, p, "c08.chunks_rev", false, ks::chunks(whole, n).rev(), StdW { main: whole.chunks(n).rev(), shadow: no_shadow(), flip: true }, &show, &|_| String::new(), &|_| String::new());
-    drive(out, p, "c08.rchunks", false, ks::rchunks(whole, n), StdW { main: whole.rchunks(n), shadow: no_shadow(), flip: false }, &show, &|_| String::new(), &|_| String::new());
-    drive(out, p, "c08.rchunks_rev", false, ks::rchunks(whole, n).rev(), StdW { main: whole.rchunks(n).rev(), shadow: no_shadow(), flip: true }, &show, &|_| String::new(), &|_| String::new());
+    drive_c!(out, p, "c08.chunks", false, ks::chunks(whole, n), StdW { main: whole.chunks(n), shadow: no_shadow(), flip: false }, &show, &|_| String::new(), &e);
+    drive_c!(out, p, "c08.chunks_rev", false, ks::chunks(whole, n).rev(), StdW { main: whole.chunks(n).rev(), shadow: no_shadow(), flip: true }, &show, &|_| String::new(), &|_| String::new());
+    drive_c!(out, p, "c08.rchunks", false, ks::rchunks(whole, n), StdW { main: whole.rchunks(n), shadow: no_shadow(), flip: false }, &show, &|_| String::new(), &|_| String::new());
+    drive_c!(out, p, "c08.rchunks_rev", false, ks::rchunks(whole, n).rev(), StdW { main: whole.rchunks(n).rev(), shadow: no_shadow(), flip: true }, &show, &|_| String::new(), &|_| String::new());
     if variants {
-        drive(out, p, "c08.chunks", false, ks::chunks(whole, n).rev().rev(), StdW { main: whole.chunks(n), shadow: no_shadow(), flip: false }, &show, &|_| String::new(), &|_| String::new());
-        drive(out, p, "c08.rchunks", false, ks::rchunks(whole, n).rev().rev(), StdW { main: whole.rchunks(n), shadow: no_shadow(), flip: false }, &show, &|_| String::new(), &|_| String::new());
+        drive_c!(out, p, "c08.chunks", false, ks::chunks(whole, n).rev().rev(), StdW { main: whole.chunks(n), shadow: no_shadow(), flip: false }, &show, &|_| String::new(), &|_| String::new());
+        drive_c!(out, p, "c08.rchunks", false, ks::rchunks(whole, n).rev().rev(), StdW { main: whole.rchunks(n), shadow: no_shadow(), flip: false }, &show, &|_| String::new(), &|_| String::new());
     }
 }
 
@@ -424,18 +440,18 @@ fn k_exact<T: Elem>(out: &mut Out, p: &P, whole: &[T], variants: bool) {
     let icer = |i: &ks::ChunksExactRev<T>| view_of(whole, i.remainder());
     let ire = |i: &ks::RChunksExact<T>| view_of(whole, i.remainder());
     let irer = |i: &ks::RChunksExactRev<T>| view_of(whole, i.remainder());
-    drive(out, p, "c08.chunks_exact", true, ks::chunks_exact(whole, n),
+    drive_c!(out, p, "c08.chunks_exact", true, ks::chunks_exact(whole, n),
         StdW { main: whole.chunks_exact(n), shadow: whole.chunks_exact(n), flip: false }, &show, &ice, &sce);
-    drive(out, p, "c08.chunks_exact_rev", true, ks::chunks_exact(whole, n).rev(),
+    drive_c!(out, p, "c08.chunks_exact_rev", true, ks::chunks_exact(whole, n).rev(),
         StdW { main: whole.chunks_exact(n).rev(), shadow: whole.chunks_exact(n), flip: true }, &show, &icer, &scer);
-    drive(out, p, "c08.rchunks_exact", true, ks::rchunks_exact(whole, n),
+    drive_c!(out, p, "c08.rchunks_exact", true, ks::rchunks_exact(whole, n),
         StdW { main: whole.rchunks_exact(n), shadow: whole.rchunks_exact(n), flip: false }, &show, &ire, &sre);
-    drive(out, p, "c08.rchunks_exact_rev", true, ks::rchunks_exact(whole, n).rev(),
+    drive_c!(out, p, "c08.rchunks_exact_rev", true, ks::rchunks_exact(whole, n).rev(),
         StdW { main: whole.rchunks_exact(n).rev(), shadow: whole.rchunks_exact(n), flip: true }, &show, &irer, &srer);
     if variants {
-        drive(out, p, "c08.chunks_exact", true, ks::chunks_exact(whole, n).rev().rev(),
+        drive_c!(out, p, "c08.chunks_exact", true, ks::chunks_exact(whole, n).rev().rev(),
             StdW { main: whole.chunks_exact(n), shadow: whole.chunks_exact(n), flip: false }, &show, &ice, &sce);
-        drive(out, p, "c08.rchunks_exact", true, ks::rchunks_exact(whole, n).rev().rev(),
+        drive_c!(out, p, "c08.rchunks_exact", true, ks::rchunks_exact(whole, n).rev().rev(),
             StdW { main: whole.rchunks_exact(n), shadow: whole.rchunks_exact(n), flip: false }, &show, &ire, &sre);
     }
 }
@@ -447,11 +463,11 @@ fn k_array<T: Elem, const N: usize>(out: &mut Out, p: &P, whole: &[T], variants:
     let std_f = || StdW { main: arrs.iter(), shadow: no_shadow(), flip: false };
     let std_r = || StdW { main: arrs.iter().rev(), shadow: no_shadow(), flip: true };
     let ir = |i: &ks::ArrayChunks<T, N>| view_of(whole, i.remainder());
-    drive(out, p, "c08.array_chunks", true, ks::array_chunks::<T, N>(whole), std_f(), &show, &ir, &|_| srem.clone());
+    drive_c!(out, p, "c08.array_chunks", true, ks::array_chunks::<T, N>(whole), std_f(), &show, &ir, &|_| srem.clone());
     // ArrayChunksRev has no remainder()
-    drive(out, p, "c08.array_chunks_rev", false, ks::array_chunks::<T, N>(whole).rev(), std_r(), &show, &|_| String::new(), &|_| String::new());
+    drive_c!(out, p, "c08.array_chunks_rev", false, ks::array_chunks::<T, N>(whole).rev(), std_r(), &show, &|_| String::new(), &|_| String::new());
     if variants {
-        drive(out, p, "c08.array_chunks", true, ks::array_chunks::<T, N>(whole).rev().rev(), std_f(), &show, &ir, &|_| srem.clone());
+        drive_c!(out, p, "c08.array_chunks", true, ks::array_chunks::<T, N>(whole).rev().rev(), std_f(), &show, &ir, &|_| srem.clone());
     }
     // as_chunks / as_rchunks themselves
     let arrs_str = |a: &[[T; N]]| format!("{}*{}", view_of(whole, a.as_flattened()), a.len());
